@@ -33,13 +33,13 @@ UBDEF = ("the machine's catalogue of UB kinds is the definition of memory unsafe
 
 prop("C01", title="operation sequences behave like std Vec", trusted=[HAND, EXTR, "std::vec::Vec as the oracle of the list-level spec (three-way run)"])
 prop("C02", title="exactly-once ownership", trusted=[HAND, EXTR, UBDEF])
-prop("C03", title="allocator contract", equiv=["next_aligned_equiv", "make_layout_equiv", "max_align_equiv"], trusted=[HAND, EXTR, UBDEF, "the GlobalAlloc contract as written in Machine.do_realloc/do_dealloc"])
+prop("C03", title="allocator contract", equiv=["next_aligned_equiv", "make_layout_equiv", "max_align_equiv", "EquivGrow.grow_equiv"], trusted=[HAND, EXTR, UBDEF, "the GlobalAlloc contract as written in Machine.do_realloc/do_dealloc"])
 prop("C04", title="panic safety", trusted=[HAND, EXTR, UBDEF])
 prop("C05", title="forget safety", trusted=[HAND, EXTR, UBDEF])
-prop("C06", title="never-allocated vector", trusted=[HAND, EXTR, UBDEF], profiles="dr")
-prop("C07", title="capacity honest / reservation contract / stability", equiv=["next_aligned_equiv", "make_layout_equiv"], trusted=[HAND, EXTR])
-prop("C08", title="alignment", equiv=["next_aligned_equiv", "make_layout_equiv", "max_align_equiv"], trusted=[HAND, EXTR])
-prop("C09", title="impossible sizes", equiv=["next_aligned_equiv", "make_layout_equiv", "max_align_equiv"], quick_n=240, thorough_n=4000, child_timeout=15,
+prop("C06", title="never-allocated vector", equiv=["EquivCap.len_equiv", "EquivCap.capacity_equiv", "EquivCap.alignment_equiv"], trusted=[HAND, EXTR, UBDEF], profiles="dr")
+prop("C07", title="capacity honest / reservation contract / stability", equiv=["next_aligned_equiv", "make_layout_equiv", "EquivCap.len_equiv", "EquivCap.capacity_equiv", "EquivCap.reserve_exact_equiv", "EquivCap.shrink_to_fit_equiv", "EquivCap.shrink_to_equiv", "EquivGrow.grow_equiv"], trusted=[HAND, EXTR])
+prop("C08", title="alignment", equiv=["next_aligned_equiv", "make_layout_equiv", "max_align_equiv", "EquivCap.alignment_equiv", "EquivGrow.grow_equiv"], trusted=[HAND, EXTR])
+prop("C09", title="impossible sizes", equiv=["next_aligned_equiv", "make_layout_equiv", "max_align_equiv", "EquivCap.reserve_exact_equiv", "EquivGrow.grow_equiv"], quick_n=240, thorough_n=4000, child_timeout=15,
      trusted=[HAND, EXTR, "Eval.v's reading of usize arithmetic (panic in debug, wrap in release), checked_add/checked_mul and Layout::from_size_align"])
 prop("C10", title="iterator protocol", trusted=[HAND, EXTR])
 prop("C11", title="out-of-range arguments rejected atomically", trusted=[HAND, EXTR])
@@ -53,7 +53,7 @@ prop("C16", title="compile-time rules", impl="rustc",
      trusted=["rustc is the observed oracle: the corpus of must-not-compile / must-compile programs is compiled against the current crate",
               "coq/Static.v checks signature tables only; Rust's borrow checker, auto-trait derivation and variance are NOT modelled"])
 prop("C17", title="ill-behaved safe callbacks", trusted=[HAND, EXTR, UBDEF])
-prop("C18", title="allocation failure", equiv=["make_layout_equiv"], quick_n=240, thorough_n=3000, profiles="dr", trusted=[HAND, EXTR])
+prop("C18", title="allocation failure", equiv=["make_layout_equiv", "EquivGrow.grow_equiv"], quick_n=240, thorough_n=3000, profiles="dr", trusted=[HAND, EXTR])
 prop("C19", title="serde", equiv=["map_size_hint_equiv"], impl="serde",
      trusted=["the two visitor loops of src/serde.rs are not modelled in Coq; they are exercised by the harness with a recording serializer and a scripted SeqAccess"])
 
@@ -70,13 +70,14 @@ def coq_side(ctx, P):
         out["failed"].append({"what": "coq", "detail": "Properties/%s.v does not exist yet" % pid})
         return out
     targets = ["Properties/%s.vo" % pid]
-    if P["equiv"]:
-        targets.insert(0, "Equiv.vo")
+    eq = [(e.split(".", 1) if "." in e else ["Equiv", e]) for e in P["equiv"]]
+    for f in sorted(set(f for f, _ in eq)):
+        targets.insert(0, f + ".vo")
     b = coqstage.build(targets)
     out["build"] = b
     names = coqstage.theorem_names(os.path.join(COQ, "Properties", pid + ".v"))
     out["obligations"] = ["Properties/%s.v:%s %s" % (pid, k, n) for k, n in names] + \
-                         ["Equiv.v:Lemma %s" % e for e in P["equiv"]] + ["audit: no Admitted/admit/Axiom/Parameter/...",
+                         ["%s.v:Lemma %s (translated body = model, re-proved against the regenerated AST)" % (f, e) for f, e in eq] + ["audit: no Admitted/admit/Axiom/Parameter/...",
                                                                         "audit: Print Assumptions closed (allowlist empty)"]
     if not b["ok"]:
         for e in b.get("errors", []) or [b.get("error")]:
